@@ -6,6 +6,7 @@
   every data scenario, every schedule (list of actions; disabled ones are skipped) — i.e. every
   interleaving of the two copiers, main, the caller and the environment.
 -/
+import SA.Proofs.StalledSession
 import SA.Proofs.Pipe
 import SA.Gen.Locks
 import SA.Gen.PkgVars
@@ -469,3 +470,33 @@ end SA.CarrierClose
 #print axioms SA.CarrierClose.C14_blocked_session_released_now
 #print axioms SA.CarrierClose.C14_witness_close_waits
 #print axioms SA.CarrierClose.C14_witness_close_waits_idle_ok
+
+namespace SA.StalledSession
+/-- **lost_session_with_stalled_target_is_released**: the session's carrier is lost while the multiplexer is not reading
+    it (a target has stopped reading and the receive buffer is full).  With the code's two mechanisms — a failed carrier
+    write ends the session; every handler releases its target when the accept loop has ended — every schedule in which
+    the keep-alive write, the session close, the accept loop's end and the handler's watcher get their turn (anything
+    before, between and after them) ends with all seven goroutines, the carrier and the target connection released. -/
+theorem C14_lost_session_with_stalled_target_is_released (A0 A1 A2 A3 A4 : List Act) :
+    released (run both {}
+      (A0 ++ Act.ping :: (A1 ++ Act.closeSession :: (A2 ++ Act.announce :: (A3 ++ Act.releaseTarget :: A4))))) = true :=
+  released_of_turns {} A0 A1 A2 A3 A4
+
+/-- the code has both mechanisms (regenerated from internal/server/communicator.go) -/
+theorem C14_code_has_both_mechanisms : codePolicy = both := by decide
+
+/-- witnesses (the behaviour before the repair): without the carrier watch nothing is ever released, and without the
+    handlers' release the connection to the stalled target stays — for every schedule -/
+theorem C14_witness_stalled_target_held (r w : Bool) (as : List Act) :
+    goroutines (run ⟨false, r⟩ {} as) = 7 ∧ sockets (run ⟨false, r⟩ {} as) = 2 ∧
+    sockets (run ⟨w, false⟩ {} as) ≥ 1 := by
+  have h := stuck_without_watch r as
+  have t := target_stays_without_release w as
+  refine ⟨by simp [goroutines, h.1, h.2.1, h.2.2], by simp [sockets, h.1, h.2.2], ?_⟩
+  simp only [sockets, t]
+  split <;> simp
+end SA.StalledSession
+
+#print axioms SA.StalledSession.C14_lost_session_with_stalled_target_is_released
+#print axioms SA.StalledSession.C14_code_has_both_mechanisms
+#print axioms SA.StalledSession.C14_witness_stalled_target_held
